@@ -156,7 +156,9 @@ func ExecSpdx(op M) (res any) {
 // ---------------------------------------------------------------------------------------------
 // generation
 
-var spdxIDPool = []string{"a", "b", "c", "pkg-1.0", "lib.so", "A-b.C", "n1", "n11", "x0", "aSPDXRef-b"}
+var spdxIDPool = []string{"a", "b", "c", "pkg-1.0", "lib.so", "A-b.C", "n1", "n11", "x0", "aSPDXRef-b",
+	// ordinary identifiers that merely contain the marker of generated references
+	"lib-autoconf", "gnu-automake--m4"}
 var textPool = []string{"x", "Y z", "v1.2.3", "é ü 漢字", "a:b+c", "tab\tsep", "q\"uote", "back\\slash", "<html>&amp;", "line\nbreak", "  padded  ", "\u2028ls", "🙂"}
 var plainNames = []string{"ACME", "Bob Builder", "Org (x)", "Jo: the one", "é-corp"}
 var sharedHashAlgos = []int{1, 2, 3, 4, 5, 6, 7, 8, 9, 10, 11, 12, 14, 15, 16, 17}
